@@ -2,7 +2,12 @@ package main
 
 import (
 	"bytes"
+	"context"
 	"fmt"
+	"io"
+
+	"github.com/buildbarn/bb-storage/pkg/blobstore"
+	"github.com/buildbarn/bb-storage/pkg/blobstore/buffer"
 
 	"github.com/buildbarn/bb-storage/pkg/blobstore/grpcservers"
 	"github.com/buildbarn/bb-storage/pkg/digest"
@@ -28,6 +33,40 @@ type rcase struct {
 
 type rresult struct{ msg, sig, outcome string }
 
+// streamBackend serves one object as a stream of one-byte chunks (as a remote or block-device backend
+// would): a content mismatch is only noticed at the end, an I/O error can strike after data was produced.
+type streamBackend struct {
+	blobstore.BlobAccess
+	d         digest.Digest
+	data      []byte
+	failAfter int // -1: never; n: the chunk reader fails after n chunks
+}
+
+type byteChunks struct {
+	data      []byte
+	pos       int
+	failAfter int
+}
+
+func (r *byteChunks) Read() ([]byte, error) {
+	if r.failAfter >= 0 && r.pos >= r.failAfter {
+		return nil, errInjected
+	}
+	if r.pos >= len(r.data) {
+		return nil, io.EOF
+	}
+	r.pos++
+	return r.data[r.pos-1 : r.pos], nil
+}
+func (r *byteChunks) Close() {}
+
+func (b streamBackend) Get(ctx context.Context, d digest.Digest) buffer.Buffer {
+	if d != b.d {
+		return b.BlobAccess.Get(ctx, d)
+	}
+	return buffer.NewCASBufferFromChunkReader(d, &byteChunks{data: b.data, failAfter: b.failAfter}, buffer.BackendProvided(buffer.Irreparable(d)))
+}
+
 func runRead(c *rcase) rresult {
 	d := digestOf(instanceName, c.Content)
 	backend := sim.NewModel("backend", keyFormat)
@@ -51,11 +90,22 @@ func runRead(c *rcase) rresult {
 		backend.Store(d, c.Content)
 		backend.Hook = func(op string, ds []digest.Digest) error { return errInjected }
 	}
+	var ba blobstore.BlobAccess = backend
+	switch c.Presence {
+	case "corrupt-stream":
+		// wrong last byte, delivered as a stream: the mismatch shows only after all data was produced
+		bad := append([]byte(nil), c.Content...)
+		bad[len(bad)-1] ^= 1
+		ba = streamBackend{BlobAccess: backend, d: d, data: bad, failAfter: -1}
+	case "midstream-error":
+		// the backend's stream breaks after its first chunk
+		ba = streamBackend{BlobAccess: backend, d: d, data: c.Content, failAfter: 1}
+	}
 	var pool bb_zstd.Pool = sharedPool
 	if c.Pool == "bounded" {
 		pool = sharedBounded
 	}
-	server := grpcservers.NewByteStreamServer(backend, c.Chunk, pool)
+	server := grpcservers.NewByteStreamServer(ba, c.Chunk, pool)
 	stream := &fakeReadStream{failAt: c.FailAt}
 
 	err := server.Read(&bytestream.ReadRequest{ResourceName: c.Name, ReadOffset: c.Offset, ReadLimit: c.Limit}, stream)
@@ -80,9 +130,20 @@ func runRead(c *rcase) rresult {
 	// returns afterwards cannot reach anybody; it is recorded, not judged
 	// (the zstd path returns OK when the failing Send happens in the deferred
 	// encoder.Close()).
-	if c.Presence == "corrupt" {
-		if err == nil {
+	if c.Presence == "corrupt" || c.Presence == "corrupt-stream" {
+		if err == nil && (c.Limit == 0 || c.Presence == "corrupt") && !sendFailed && k >= 0 && k <= size {
 			return fail("corrupt-object-read-ok", "the backend's object does not match its digest but Read completed OK")
+		}
+		return res
+	}
+	if c.Presence == "midstream-error" {
+		// the stream yields content[:1] and then fails: whatever was sent must be a prefix of content[k:], and a
+		// read that needs more than the backend could deliver must not complete OK
+		if k >= 0 && k <= size && !bytes.HasPrefix(c.Content[k:], got) {
+			return fail("bytes-from-elsewhere", "read_offset %d of %q (stream breaking after 1 byte): streamed %q", k, c.Content, got)
+		}
+		if err == nil && !sendFailed && k >= 0 && k < size && (c.Limit == 0 || k+c.Limit > 1) {
+			return fail("backend-error-read-ok", "the backend's stream failed after its first byte, the request needed bytes beyond it, but Read completed OK with %q", got)
 		}
 		return res
 	}
@@ -135,7 +196,7 @@ func runRead(c *rcase) rresult {
 
 func readSub(r *ev.Run, name string) {
 	sub := r.NewSub(name, "venum",
-		"ByteStream.Read: objects \"\",\"a\",\"abc\",\"abcde\" x {identity,zstd} x backend {present, absent, present under another instance name, content not matching digest, Get error} "+
+		"ByteStream.Read: objects \"\",\"a\",\"abc\",\"abcde\" x {identity,zstd} x backend {present, absent, present under another instance name, content not matching digest, Get error, streamed in 1-byte chunks with the last byte wrong, stream breaking after the first byte} "+
 			"x read_offset in [-1,size+1] x readChunkSize {1,2,size+1} x read_limit {0,1,size} x Send failing from message {never,0,1,2}; plus 9 malformed resource names; zstd also with the bounded pool")
 	done := sub.Timer()
 	var outcomes ev.Set
@@ -163,7 +224,10 @@ func readSub(r *ev.Run, name string) {
 			}
 			valid := readName(instanceName, comp, h, size)
 			for _, pool := range pools {
-				for _, presence := range []string{"present", "absent", "other-instance", "corrupt", "backend-error"} {
+				for _, presence := range []string{"present", "absent", "other-instance", "corrupt", "backend-error", "corrupt-stream", "midstream-error"} {
+					if size < 2 && (presence == "corrupt-stream" || presence == "midstream-error") {
+						continue
+					}
 					for off := int64(-1); off <= size+1; off++ {
 						for _, chunk := range dedupInts([]int{1, 2, int(size) + 1}) {
 							for _, limit := range dedupInt64s([]int64{0, 1, size}) {
